@@ -419,9 +419,16 @@ func (z *zfn) termD(v ssa.Value, d int) lin {
 			n := z.atom(name, x)
 			if !z.seen[name+"/def"] {
 				z.seen[name+"/def"] = true
+				dl, sl := z.lenOf(x.Call.Args[0], d+1), z.lenOf(x.Call.Args[1], d+1)
 				z.addFact(n.scale(-1), x)
-				z.addFact(leq(n, z.lenOf(x.Call.Args[0], d+1), 0), x)
-				z.addFact(leq(n, z.lenOf(x.Call.Args[1], d+1), 0), x)
+				z.addFact(leq(n, dl, 0), x)
+				z.addFact(leq(n, sl, 0), x)
+				// copy returns exactly min(len(dst), len(src)): pick the side that is provably the minimum
+				if ok, _ := z.prove(x, []lin{leq(sl, dl, 0)}); ok {
+					z.addFact(leq(sl, n, 0), x)
+				} else if ok, _ := z.prove(x, []lin{leq(dl, sl, 0)}); ok {
+					z.addFact(leq(dl, n, 0), x)
+				}
 			}
 			return n
 		}
@@ -695,7 +702,18 @@ func (z *zfn) sliceKey(v ssa.Value, d int) string {
 		k := z.vname(x)
 		if !z.seen["s:"+k] {
 			z.seen["s:"+k] = true
-			z.callEnsures(x, nil, k)
+			if builtinName(&x.Call) == "append" && len(x.Call.Args) == 2 {
+				// len(append(a, b...)) = len(a) + len(b)
+				if _, isSlice := x.Call.Args[1].Type().Underlying().(*types.Slice); isSlice {
+					ln := z.atom("len#"+k, nil)
+					z.lenCapFacts(k, nil)
+					sum := z.lenOf(x.Call.Args[0], d+1).plus(z.lenOf(x.Call.Args[1], d+1), 1)
+					z.addFact(leq(ln, sum, 0), x)
+					z.addFact(leq(sum, ln, 0), x)
+				}
+			} else {
+				z.callEnsures(x, nil, k)
+			}
 		}
 		return k
 	case *ssa.Const:
